@@ -92,6 +92,9 @@ def run(ctx):
     runs.append(run_replay(ctx, "gen_nodedb_a.cfg", 60 if q else 3))
     runs.append(run_replay(ctx, "gen_nodedb_c.cfg", 1))          # up to four competing candidates in one version
     runs.append(run_replay(ctx, "gen_nodedb_d.cfg", 2 if q else 1))          # one line of versions 0..3 over three keys, single writes
+    # both root types with two competing candidates each: a version finalized with a state root and an IO root of which one was the
+    # second candidate of its type (it has to be moved to the finalized place on pathbadger) and the other the first
+    runs.append(run_replay(ctx, "gen_nodedb_e.cfg", 60 if q else 4))
     runs.append(run_replay(ctx, "gen_nodedb_b.cfg", 900 if q else 120, gated=True))
     for _, s in runs:
         verdicts(ctx, s)
